@@ -107,9 +107,17 @@ def roundtrip_job(job):
 
 
 # ------------------------------------------------------------------ run()
+# how users name the folder a workbook lives in (the specification's place "wb" is any of them)
+FOLDERS = ['run_%d', 'plate {%d} day 2', 'exp{GFP}_plate{%d}', '100%%_induction_%d', "it's run (%d) [a]", 'r%d.d']
+
+
+def folder(prefix, idx):
+    return prefix + FOLDERS[idx % len(FOLDERS)] % idx
+
+
 def run_job(job):
     idx, cfg = job
-    d = os.path.join(W.dir, 'run_%d' % idx)
+    d = os.path.join(W.dir, folder('', idx))
     os.makedirs(d, exist_ok=True)
     inst_rows = cfg['instruments']
     for f in os.listdir(W.dir):
@@ -282,7 +290,7 @@ def env_job(job):
     """replay one RunEnv history: chdir / stray look-alike folders / repeated runs on one workbook"""
     idx, st = job
     hist = st['hist']
-    d = os.path.join(W.dir, 'env_%d' % idx)
+    d = os.path.join(W.dir, folder('env_', idx))
     other = os.path.join(W.dir, 'env_%d_other' % idx)
     os.makedirs(d, exist_ok=True)
     os.makedirs(other, exist_ok=True)
